@@ -144,7 +144,7 @@ def component(dd, ctx, acc):
 
 
 @st.composite
-def fault_case(draw):
+def fault_case(draw, force_memout_profile=False):
     c = draw(gen_run.run_case(jobs=(1, 3), formats=('default', ), with_cc=False, with_delay=False,
                               comparisons=False, max_asserts=4, kinds=['monotone', 'mixed', 'hash']))
     kinds = draw(st.lists(st.sampled_from('spavkw'), min_size=1, max_size=3, unique=True))
@@ -168,18 +168,37 @@ def fault_case(draw):
     c['opts']['timeout'] = draw(st.sampled_from([0.3, 0.5]))
     if 'a' in kinds or draw(st.booleans()):
         c['opts']['memout'] = 200
+    if force_memout_profile or draw(st.integers(0, 5)) == 0:
+        # --memout without --timeout (the default time limit is derived from the
+        # golden run); optionally the golden run itself exhausts the memory limit
+        classes = {k: v for k, v in classes.items() if v in 'avk'}
+        free2 = [k for k in range(mod) if str(k) not in classes and k != vspec.mix(th, salt) % mod]
+        classes[str(free2[0])] = 'a'
+        c['golden_fault'] = None
+        c['opts'].pop('ignore_output', None)
+        if force_memout_profile or draw(st.booleans()):
+            classes[str(vspec.mix(th, salt) % mod)] = 'a'
+            c['golden_fault'] = 'a'
+            c['opts']['ignore_output'] = True
+        else:
+            classes.pop(str(vspec.mix(th, salt) % mod), None)
+        c['spec']['fault'] = [salt, mod, classes]
+        c['opts']['timeout'] = None
+        c['opts']['memout'] = 200
+        c['profile'] = 'memout-without-timeout'
     c['kind'] = 'run'
     return c
 
 
 def run_fault_case(case, acc, wd):
-    limit = case['opts']['timeout']
+    limit = case['opts']['timeout'] or 3.0
     if 'stall' in acc.violations:
         acc.skip('stall bucket saturated')
         return False, ['run']
     r = e2e.run_ddsmt(wd, case['text'], case['spec'], case['opts'], mode='launcher',
                       plan=dict(trace=True, stop_on_repeat=True, max_accepts=150), wall_limit=75)
-    classes = ['run', f'strategy-{case["opts"]["strategy"]}', f'jobs-{case["opts"]["jobs"]}']
+    classes = ['run', f'strategy-{case["opts"]["strategy"]}', f'jobs-{case["opts"]["jobs"]}'] + \
+        ([case['profile']] if case.get('profile') else []) + (['golden-' + KINDS[case['golden_fault']]] if case.get('golden_fault') else [])
     faults = {}
     for e in r.log:
         if e['fault']:
@@ -208,6 +227,15 @@ def run_fault_case(case, acc, wd):
             acc.count('run-failed(see C04)')
         else:
             acc.violation('exit-status', f'run with faulty candidates ended with status {r.after["rc"]}: {r.stderr[-300:]!r}', case)
+    if case.get('golden_fault'):
+        # the golden run ended abnormally: only candidates that end the same way match
+        for e in r.trace:
+            if e['e'] == 'Wb' and faults.get(e['tok']) != case['golden_fault']:
+                acc.violation(f'adopted/normal-though-golden-{KINDS[case["golden_fault"]]}',
+                              f'the golden run {KINDS[case["golden_fault"]]}s, yet a candidate on which the command '
+                              f'{KINDS.get(faults.get(e["tok"]), "ends normally")} was written to the output file '
+                              f'(options {case["opts"]})', case)
+                break
     for e in r.trace:
         if e['e'] == 'Wb' and e['tok'] in faults and faults[e['tok']] != case.get('golden_fault'):
             acc.violation(f'adopted/{KINDS[faults[e["tok"]]]}',
@@ -263,8 +291,9 @@ def shard(ctx, acc):
                  sample=dict(kind=case['kind'], opts=case['opts'], fault=case['spec'].get('fault'),
                              input=case['text'][:200]))
 
-    total = 48 if ctx.quick else 800
-    runner.hyp_run(ctx, st.one_of(fault_case(), fault_case(), fault_case(), match_case()), body, ctx.share(total))
+    total = 64 if ctx.quick else 900
+    runner.hyp_run(ctx, st.one_of(fault_case(), fault_case(), fault_case(), fault_case(True), match_case()), body,
+                   ctx.share(total))
 
 
 def replay(case, acc, ctx):
